@@ -8,6 +8,7 @@ import (
 	"io"
 	"math"
 	"math/big"
+	"os"
 	"os/exec"
 	"strconv"
 	"strings"
@@ -158,6 +159,10 @@ func (s *Solver) Check(extra ...string) Result {
 	s.sendRaw("(pop 1)")
 	s.Queries++
 	s.Time += time.Since(t0)
+	if d := time.Since(t0); d > 3*time.Second && os.Getenv("VERIF_SLOWQ") != "" {
+		os.WriteFile(fmt.Sprintf("/tmp/slowq-%d.smt2", s.Queries), []byte(s.Script(extra...)), 0o644)
+		fmt.Fprintf(os.Stderr, "slow query %v -> %v (%d)\n", d, r, s.Queries)
+	}
 	return r
 }
 
